@@ -34,7 +34,7 @@ class Profile:
 
     def __init__(self, **kw):
         self.min_types, self.max_types = 2, 6
-        self.p_crowd_big = 0.0           # share of the crowd scenarios whose crowd has 58..70 members
+        self.p_crowd_big = 0.0           # non-zero: scenario 7 of a run carries a crowd of 55..57 members
         self.p_proc_crowd = 0.0          # a scenario with 10..15 further Ordered user post-processors of pairwise different
         #                                  Order, all behind the built-in ones: more Ordered processors than sort.Slice sorts by insertion
         self.p_crowd = 0.02              # a scenario with one naming type instantiated 24..36 times: more singletons than any
@@ -177,6 +177,9 @@ def gen_scenario(rng, sid, pf):
                           "runner": None, "closer": False, "proc": None, "methods": [], "fields": [], "cfields": [],
                           "bare": "sized", "const_name": None, "generic": (base, arg)})
     crowd = rng.random() < pf.p_crowd
+    # a big crowd costs the oracles minutes: exactly one scenario of a run carries one, whatever the tier
+    big_crowd = bool(pf.p_crowd_big) and sid == 7
+    crowd = crowd or big_crowd
     crowd_type = None
     if crowd:
         cands = [ti for ti, t in enumerate(types) if not t.get("bare") and not t["proc"]]
@@ -198,8 +201,8 @@ def gen_scenario(rng, sid, pf):
             ninst = 2
         if t["naming"] and not t["proc"] and crowd and ti == crowd_type:
             ninst = rng.randint(24, 36)
-            if pf.p_crowd_big and rng.random() < pf.p_crowd_big:
-                ninst = rng.randint(58, 70)       # with the built-in components: more than 64 singletons
+            if big_crowd:
+                ninst = rng.randint(55, 57)       # with the built-in components: more than 64 singletons
         for j in range(ninst):
             name = ""
             if t["naming"]:
